@@ -126,12 +126,31 @@ fn requires_for(contracts: &serde_json::Value, f: &Func, ps: &[ParamSpec]) -> Ve
 fn emit_mirror(f: &Func, m: &Mirror) -> String {
     let mut s = String::new();
     let params = m.params.iter().map(|(n, t)| format!("{}: {t}", spec_ident(n))).collect::<Vec<_>>().join(", ");
+    let index: HashMap<&str, usize> = m.lets.iter().enumerate().map(|(i, (n, _, _))| (n.as_str(), i)).collect();
     for (part, e, sort) in &m.outs {
+        // dead-let elimination: keep only the bindings this part depends on
+        let mut needed = vec![false; m.lets.len()];
+        let mut stack: Vec<usize> = let_refs(e).iter().filter_map(|n| index.get(n.as_str()).copied()).collect();
+        while let Some(i) = stack.pop() {
+            if needed[i] {
+                continue;
+            }
+            needed[i] = true;
+            for n in let_refs(&m.lets[i].1) {
+                if let Some(&j) = index.get(n.as_str()) {
+                    if !needed[j] {
+                        stack.push(j);
+                    }
+                }
+            }
+        }
         s.push_str(&format!("#[verifier::inline] pub open spec fn {}_{}({}) -> {} {{ ", f.mname, part, params, sort));
         // let-bound names are made unique per (function, part): Verus' inliner requires distinct binders
         let uniq = |x: &str| rename_lets(x, &format!("{}_{}", f.mname, part));
-        for (n, e, _) in &m.lets {
-            s.push_str(&format!("let {} = {}; ", uniq(n), uniq(e)));
+        for (i, (n, e, _)) in m.lets.iter().enumerate() {
+            if needed[i] {
+                s.push_str(&format!("let {} = {}; ", uniq(n), uniq(e)));
+            }
         }
         s.push_str(&uniq(e));
         s.push_str(" }\n");
@@ -139,7 +158,30 @@ fn emit_mirror(f: &Func, m: &Mirror) -> String {
     s
 }
 
-/// `self` is a keyword: flat parameter names derived from `self` are spelled `self_…` already; a bare `self` never occurs.
+/// names of the form t_<digits> occurring in an expression
+fn let_refs(e: &str) -> Vec<String> {
+    let b = e.as_bytes();
+    let mut out = vec![];
+    let mut i = 0;
+    while i < b.len() {
+        let prev_ok = i == 0 || !(b[i - 1].is_ascii_alphanumeric() || b[i - 1] == b'_');
+        if prev_ok && b[i] == b't' && i + 2 < b.len() && b[i + 1] == b'_' && b[i + 2].is_ascii_digit() {
+            let mut j = i + 2;
+            while j < b.len() && b[j].is_ascii_digit() {
+                j += 1;
+            }
+            let next_ok = j == b.len() || !(b[j].is_ascii_alphanumeric() || b[j] == b'_');
+            if next_ok {
+                out.push(e[i..j].to_string());
+                i = j;
+                continue;
+            }
+        }
+        i += 1;
+    }
+    out
+}
+
 fn rename_lets(e: &str, suffix: &str) -> String {
     // replace every token of the form t_<digits> by t_<digits>_<suffix>
     let b = e.as_bytes();
